@@ -35,7 +35,11 @@ def build(ps, P, names, order, shape, pbname="pb"):
         elif role == "o":
             objs["o"] = ps.FixedDurationTask(name=names["o"], duration=P.int("do"), optional=True)
         elif role == "s":
-            objs["s"] = ps.VariableDurationTask(name=names["s"], min_duration=P.int("ms"), optional=(shape == "distance3"))
+            if shape == "twins":
+                # a look-alike of task a: same class, same duration, same worker -- only an indicator tells them apart
+                objs["s"] = ps.FixedDurationTask(name=names["s"], duration=P.int("da"))
+            else:
+                objs["s"] = ps.VariableDurationTask(name=names["s"], min_duration=P.int("ms"), optional=(shape == "distance3"))
 
     def mk_worker(role):
         objs[role] = ps.Worker(name=names[role])
@@ -75,7 +79,9 @@ def build(ps, P, names, order, shape, pbname="pb"):
         s.add_required_resource(W)
 
     def mk_constraint(role):
-        if role == "prec":
+        if role == "prec" and shape == "twins":
+            ps.TaskEndBefore(name=names["prec"], task=o, value=P.int("eb"))  # (no constraint names the look-alike tasks)
+        elif role == "prec":
             ps.TaskPrecedence(name=names["prec"], task_before=a, task_after=s, offset=P.int("off"))
         elif role == "start":
             ps.TaskStartAfter(name=names["start"], task=o, value=P.int("v"))
@@ -88,11 +94,16 @@ def build(ps, P, names, order, shape, pbname="pb"):
                 ps.WorkLoad(name=names["extra"], resource=W, dict_time_intervals_and_bound={(P.int("lo"), P.int("lo") + 5): P.int("bound")})
                 # a second one, on the other worker, over the same window
                 ps.WorkLoad(name=names["extra"] + "2", resource=V, dict_time_intervals_and_bound={(P.int("lo"), P.int("lo") + 5): P.int("bound2")})
+            elif shape == "twins":
+                ps.TaskStartAfter(name=names["extra"], task=o, value=P.int("sa"), kind="strict")
             else:
                 ps.TasksDontOverlap(name=names["extra"], task_1=a, task_2=o)
 
     for r in order["constraints"]:
         mk_constraint(r)
+    if shape == "twins":
+        ind = ps.IndicatorFromMathExpression(name=names["ind"], expression=s._end)
+        ps.IndicatorBounds(name=names["extra"] + "b", indicator=ind, upper_bound=P.int("bound"))
     if shape == "indicator":
         ps.IndicatorResourceUtilization(resource=W)
         ps.IndicatorFromMathExpression(name=names["ind"], expression=a._start + s._end)
@@ -115,7 +126,7 @@ def preconditions(P):
 NAMES_1 = dict(a="a", o="o", s="s", W="W", V="V", prec="cprec", start="cstart", extra="cextra", ind="ind")
 NAMES_2 = dict(a="alpha", o="omega", s="sigma", W="Worker9", V="v", prec="c1", start="c2", extra="c3", ind="myindicator")
 ORDER_0 = dict(tasks=("a", "o", "s"), workers=("W", "V"), constraints=("prec", "start", "extra"))
-SHAPES = ("plain", "select", "workload", "indicator", "distance", "distance2", "distance3", "group")
+SHAPES = ("plain", "select", "workload", "indicator", "distance", "distance2", "distance3", "group", "twins")
 # names may be shared across kinds (each kind has its own registry): a constraint, an indicator or a worker
 # called like a task
 NAMES_3 = dict(a="a", o="o", s="s", W="a", V="o", prec="a", start="o", extra="s", ind="a")
